@@ -375,7 +375,20 @@ func e2e(id string, seed uint64) runner.Result {
 			for k, v := range baseMD {
 				md[k] = v
 			}
-			if r.Intn(2) == 0 {
+			if r.Intn(3) == 0 {
+				// more pairs than the base has, every base key among them with a new value
+				style = "base+AddPairs-overriding"
+				over := genMap(r)
+				for k := range baseMD {
+					over[k] = "call-value"
+				}
+				over[fmt.Sprintf("call-%d", tag)] = "own"
+				over["second-own-key"] = "x"
+				ctx = drpcmetadata.AddPairs(ctx, over)
+				for k, v := range over {
+					md[k] = v
+				}
+			} else if r.Intn(2) == 0 {
 				style = "base+Add"
 				for k, v := range genMap(r) {
 					ctx = drpcmetadata.Add(ctx, k, v)
@@ -523,7 +536,7 @@ func twoHop(id string, seed uint64) runner.Result {
 	var plans []plan
 	ncalls := 2 + r.Intn(5)
 	for i := 0; i < ncalls; i++ {
-		plans = append(plans, plan{style: payload.Pick(r, []string{"as-is", "Add", "AddPairs", "Add-overwriting-an-incoming-key", "fresh-context+Add"}), extra: genMap(r), stream: r.Intn(2) == 0})
+		plans = append(plans, plan{style: payload.Pick(r, []string{"as-is", "Add", "AddPairs", "Add-overwriting-an-incoming-key", "AddPairs-overwriting-every-incoming-key-and-more", "fresh-context+Add"}), extra: genMap(r), stream: r.Intn(2) == 0})
 	}
 	idx := 0
 	front := rig.New(rig.Config{Net: simnet.Opts{Cap: -1}}, rig.HandlerFunc(func(stream drpc.Stream, rpc string) error {
@@ -534,27 +547,47 @@ func twoHop(id string, seed uint64) runner.Result {
 		p := plans[idx]
 		idx++
 		ctx := stream.Context()
+		// what is attached is worked out here, pair by pair (a later pair for a key replaces an earlier
+		// one), not read back from the library
+		incoming, _ := drpcmetadata.Get(ctx)
+		want := cp(incoming)
 		switch p.style {
 		case "Add":
 			for k, v := range p.extra {
 				ctx = drpcmetadata.Add(ctx, k, v)
+				want[k] = v
 			}
 		case "AddPairs":
 			ctx = drpcmetadata.AddPairs(ctx, p.extra)
+			for k, v := range p.extra {
+				want[k] = v
+			}
 		case "Add-overwriting-an-incoming-key":
-			in, _ := drpcmetadata.Get(ctx)
-			for k := range in {
+			for k := range incoming {
 				ctx = drpcmetadata.Add(ctx, k, "replaced-by-the-front")
+				want[k] = "replaced-by-the-front"
 				break
 			}
 			ctx = drpcmetadata.Add(ctx, "hop", "2")
+			want["hop"] = "2"
+		case "AddPairs-overwriting-every-incoming-key-and-more":
+			over := cp(p.extra)
+			for k := range incoming {
+				over[k] = "replaced-by-the-front"
+			}
+			over["hop"], over["via"] = "2", "front"
+			ctx = drpcmetadata.AddPairs(ctx, over)
+			for k, v := range over {
+				want[k] = v
+			}
 		case "fresh-context+Add":
 			ctx = context.Background()
+			want = map[string]string{}
 			for k, v := range p.extra {
 				ctx = drpcmetadata.Add(ctx, k, v)
+				want[k] = v
 			}
 		}
-		want, _ := drpcmetadata.Get(ctx)
 		mu.Lock()
 		attached = append(attached, cp(want))
 		mu.Unlock()
